@@ -439,8 +439,14 @@ func (a *RangeLen) Eval(c Context) Value {
 }
 
 func (a *RangeLen) Columns() []string {
-	return set.Union(a.E.Columns(),
-		set.Union(a.From.Columns(), a.Len.Columns()))
+	cols := a.E.Columns()
+	if a.From != nil {
+		cols = set.Union(cols, a.From.Columns())
+	}
+	if a.Len != nil {
+		cols = set.Union(cols, a.Len.Columns())
+	}
+	return cols
 }
 
 func evalOr(e Expr, c Context, v Value) Value {
